@@ -116,6 +116,8 @@ type Stats struct {
 	Naps            uint64
 	ChanOps         uint64
 	LeakedTasks     uint64
+	Selects         uint64
+	TimersFired     uint64
 	Fingerprint     uint64
 	PairFP          []uint64 // hashes of (preempted site, resumed site)
 	Truncated       bool
@@ -548,6 +550,14 @@ func Block(addr unsafe.Pointer) {
 	} else {
 		to = pick(cur)
 	}
+	for to < 0 && fireEarliestTimer() {
+		// the clock jumped to the next timer; somebody (possibly this task) may
+		// be runnable again
+		if t.state == stRunnable {
+			return
+		}
+		to = pick(cur)
+	}
 	if to < 0 {
 		if clientsPending() {
 			abort("deadlock", deadlockDetail())
@@ -659,6 +669,9 @@ func finish(me int32) {
 	if sched.Policy == PolExplicit {
 		to = explicitNext(t, 1)
 	} else {
+		to = pick(me)
+	}
+	for to < 0 && fireEarliestTimer() {
 		to = pick(me)
 	}
 	if to < 0 {
@@ -802,6 +815,7 @@ func reset(s Sched, f Faults) {
 	}
 	resetPools()
 	resetChans()
+	resetTimers()
 }
 
 //go:norace
